@@ -111,3 +111,13 @@ def _ordinal(f, bid, bb):
                 return k
             k += 1
     return -1
+
+
+_run_base_r5f = run
+
+
+def run(rep, ctx, tier):
+    _run_base_r5f(rep, ctx, tier)
+    # every transcript-sampled column index is checked (C13's R5f instance: the relation mentions every sampled position)
+    from .c13 import sampled_indices_unfiltered
+    sampled_indices_unfiltered(rep, ctx)
